@@ -6,6 +6,13 @@
 package verifpipe
 
 import (
+	"net"
+	"net/http"
+	"net/http/httptest"
+	"os"
+	"sync"
+	"time"
+
 	"github.com/internetarchive/Zeno/internal/pkg/archiver"
 	"github.com/internetarchive/Zeno/internal/pkg/config"
 	"github.com/internetarchive/Zeno/internal/pkg/finisher"
@@ -14,12 +21,105 @@ import (
 	"github.com/internetarchive/Zeno/internal/pkg/preprocessor"
 	"github.com/internetarchive/Zeno/internal/pkg/preprocessor/seencheck"
 	"github.com/internetarchive/Zeno/internal/pkg/reactor"
+	"github.com/internetarchive/Zeno/internal/pkg/stats"
 	"github.com/internetarchive/Zeno/internal/verifmodel"
 	"github.com/internetarchive/Zeno/internal/verifrt"
 	"github.com/internetarchive/Zeno/pkg/models"
 )
 
-const base = "http://site.example"
+var base = "http://site.example"
+
+// c01Native serves verifmodel.Site over real HTTP on a non-loopback address (the crawler refuses localhost and
+// 127.0.0.1), so that the native replay runs the real WARC client, the real ada and the real extractors.
+type c01Native struct {
+	mu       sync.Mutex
+	attempts map[string]int
+	fetched  map[string]int
+	ts       *httptest.Server
+	dir      string
+}
+
+func c01NonLoopback() string {
+	addrs, _ := net.InterfaceAddrs()
+	for _, a := range addrs {
+		if ipn, ok := a.(*net.IPNet); ok && ipn.IP.To4() != nil && !ipn.IP.IsLoopback() {
+			return ipn.IP.String()
+		}
+	}
+	return ""
+}
+
+func (n *c01Native) ServeHTTP(w http.ResponseWriter, r *http.Request) {
+	n.mu.Lock()
+	key := base + r.URL.Path
+	p := verifmodel.Site[key]
+	n.attempts[key]++
+	at := n.attempts[key]
+	if p == nil {
+		p = &verifmodel.Page{Status: 404}
+	}
+	if at <= p.NetFails {
+		n.mu.Unlock()
+		hj, _ := w.(http.Hijacker)
+		conn, _, _ := hj.Hijack()
+		conn.Close()
+		return
+	}
+	n.fetched[key]++
+	n.mu.Unlock()
+	body := "\x00\x01\x02binary"
+	ctype := "application/octet-stream"
+	switch p.Kind {
+	case "html":
+		ctype = "application/xhtml+xml"
+		body = "<html><body>"
+		for _, a := range p.Assets {
+			body += "<img src=\"" + a + "\">"
+		}
+		for _, o := range p.Outlinks {
+			body += "<a href=\"" + o + "\">l</a>"
+		}
+		body += "</body></html>"
+	case "css":
+		ctype = "application/json"
+		body = "{\"k\":["
+		for i, a := range p.Assets {
+			if i > 0 {
+				body += ","
+			}
+			body += "\"" + a + "\""
+		}
+		body += "]}"
+	}
+	w.Header().Set("Content-Type", ctype)
+	if p.Location != "" {
+		w.Header().Set("Location", p.Location)
+	}
+	w.WriteHeader(p.Status)
+	w.Write([]byte(body))
+}
+
+func c01StartNative(cfg *config.Config) *c01Native {
+	ip := c01NonLoopback()
+	if ip == "" {
+		println("VERIF-REPLAY-ERROR no non-loopback IPv4 address to serve the site on")
+		os.Exit(5)
+	}
+	l, err := net.Listen("tcp", ip+":0")
+	if err != nil {
+		println("VERIF-REPLAY-ERROR cannot listen on", ip)
+		os.Exit(5)
+	}
+	n := &c01Native{attempts: map[string]int{}, fetched: map[string]int{}}
+	n.ts = httptest.NewUnstartedServer(n)
+	n.ts.Listener.Close()
+	n.ts.Listener = l
+	n.ts.Start()
+	base = n.ts.URL
+	n.dir, _ = os.MkdirTemp("", "verif-c01-")
+	cfg.JobPath, cfg.WARCTempDir, cfg.WARCPrefix, cfg.WARCPoolSize, cfg.WARCSize = n.dir, n.dir+"/tmp", "VERIF", 1, 100
+	return n
+}
 
 func ada(raw, proto, host, href string) {
 	verifmodel.AdaTable[raw] = verifmodel.AdaOutcome{Protocol: proto, Hostname: host, Href: href, HrefWithFr: href}
@@ -39,9 +139,37 @@ func VerifH_C01_one_seed() {
 	cfg.UseSeencheck = verifrt.Choice("seencheck", 2) == 1
 	config.VerifSet(cfg)
 	domainscrawl.Reset()
+	var nat *c01Native
+	if !verifrt.Symbolic() {
+		_ = stats.Init()
+		nat = c01StartNative(cfg)
+		defer os.RemoveAll(nat.dir)
+		defer nat.ts.Close()
+	}
 	if cfg.UseSeencheck {
 		verifmodel.SeenStore = map[string]string{}
-		_ = seencheck.Start("/nonexistent")
+		if verifrt.Symbolic() {
+			_ = seencheck.Start("/nonexistent")
+		} else {
+			must(seencheck.Start(nat.dir))
+			defer seencheck.Close()
+		}
+	}
+	fetched := func(u string) int {
+		if nat == nil {
+			return verifmodel.SiteFetched[u]
+		}
+		nat.mu.Lock()
+		defer nat.mu.Unlock()
+		return nat.fetched[u]
+	}
+	attempts := func(u string) int {
+		if nat == nil {
+			return verifmodel.SiteAttempts[u]
+		}
+		nat.mu.Lock()
+		defer nat.mu.Unlock()
+		return nat.attempts[u]
 	}
 
 	// ---- the site ----
@@ -101,6 +229,13 @@ func VerifH_C01_one_seed() {
 	must(seed.SetSource(models.ItemSourceQueue))
 	must(reactor.ReceiveInsert(seed))
 	verifrt.Quiesce() // a deadlock or a stage panic before this point is reported by the engine
+	if !verifrt.Symbolic() {
+		// native: wait for the finish report (retries sleep for seconds), then let late duplicates show up
+		for i := 0; i < 400 && len(finishCh) == 0; i++ {
+			time.Sleep(100 * time.Millisecond)
+		}
+		time.Sleep(500 * time.Millisecond)
+	}
 
 	// ---- observations at quiescence ----
 	finished := 0
@@ -123,39 +258,39 @@ func VerifH_C01_one_seed() {
 	})
 	verifrt.Assert(pending == 0, "C01 the seed is finished only after every URL of its tree is done")
 	// every URL was answered at most once (never fetched twice within the tree), the root was attempted
-	verifrt.Assert(verifmodel.SiteAttempts[root] >= 1, "C01 the seed URL is attempted")
+	verifrt.Assert(attempts(root) >= 1, "C01 the seed URL is attempted")
 	for _, u := range []string{root, base + "/a.png", base + "/b.css", base + "/c.woff", base + "/missing.png", base + "/next"} {
 		want503 := u == root && rootKind == 3
 		if !want503 {
-			verifrt.Assert(verifmodel.SiteFetched[u] <= 1, "C08 no URL of the tree is fetched twice")
+			verifrt.Assert(fetched(u) <= 1, "C08 no URL of the tree is fetched twice")
 		}
 	}
-	verifrt.Assert(verifmodel.SiteFetched["https://web.archive.org/x"] == 0 && verifmodel.SiteAttempts["ftp://files.example/f"] == 0, "C05 out-of-scope assets are never requested")
+	verifrt.Assert(fetched("https://web.archive.org/x") == 0 && attempts("ftp://files.example/f") == 0, "C05 out-of-scope assets are never requested")
 	pageOK := rootKind == 0 || rootKind == 4 && cfg.MaxRetry >= 1
 	if pageOK && !cfg.DisableAssetsCapture {
 		for i := 0; i < nAssets; i++ {
 			a := rp.Assets[i]
 			if a == base+"/a.png" || a == base+"/b.css" || a == base+"/missing.png" {
 				verifrt.Cover("asset-fetched")
-				verifrt.Assert(verifmodel.SiteFetched[a] == 1, "C01 every in-scope asset of the page is fetched")
+				verifrt.Assert(fetched(a) == 1, "C01 every in-scope asset of the page is fetched")
 			}
 			if a == base+"/b.css" {
 				verifrt.Cover("asset-of-asset")
-				verifrt.Assert(verifmodel.SiteFetched[base+"/c.woff"] == 1, "C01 assets of assets are fetched")
+				verifrt.Assert(fetched(base+"/c.woff") == 1, "C01 assets of assets are fetched")
 			}
 		}
 	}
 	if rootKind == 1 {
 		if cfg.MaxRedirect >= 1 {
 			verifrt.Cover("redirect-followed")
-			verifrt.Assert(verifmodel.SiteFetched[base+"/next"] == 1, "C01 the redirect target is fetched")
+			verifrt.Assert(fetched(base+"/next") == 1, "C01 the redirect target is fetched")
 		} else {
-			verifrt.Assert(verifmodel.SiteFetched[base+"/next"] == 0, "C06 no redirect is followed beyond max-redirect")
+			verifrt.Assert(fetched(base+"/next") == 0, "C06 no redirect is followed beyond max-redirect")
 		}
 	}
 	if rootKind == 3 {
 		verifrt.Cover("always-failing")
-		verifrt.Assert(verifmodel.SiteFetched[root] == cfg.MaxRetry+1, "C06 a failing URL is attempted max-retry + 1 times")
+		verifrt.Assert(fetched(root) == cfg.MaxRetry+1, "C06 a failing URL is attempted max-retry + 1 times")
 	}
 	// outlinks reach the queue as fresh seeds
 	produced := 0
